@@ -109,4 +109,58 @@ theorem siv_decrypt_short_source (v : Variant) (st : St) (p0 p1 p2 clen p4 n5 p6
   · show (sivDecryptWith (permC v (loadKey v key)) v.pk nonce ad c).ret = -1
     rw [TJ.Props.C08.short_rejected _ _ nonce ad c (by omega)]
 
+open TJ.Props.C02Gen TJ.Props.C09Gen TJ.Props.C01Gen in
+/-- **C08 (round trip) on the regenerated source**: `tinyjambu_*_siv_encrypt` into a ciphertext buffer followed by `tinyjambu_*_siv_decrypt` of that buffer into a third buffer returns 0
+    and writes back the message, for every message, AD, nonce and key of the three variants, lying anywhere with any defined labels
+    (TJ.Props.C09Gen.siv_encrypt_source_is_spec, siv_decrypt_source_is_model, TJ.Props.C08.roundtrip_lib). -/
+theorem siv_roundtrip_source (v : Variant) (st : St)
+    (bo baseo oo : Nat) (XO : Array LByte) (bq baseq qo : Nat) (XQ : Array LByte) (bl basel ol : Nat) (XL : Array LByte) (bm basem moff : Nat) (XM : Array LByte)
+    (ba basea aoff : Nat) (XA : Array LByte) (bn basen noff : Nat) (XN : Array LByte) (bk basek koff : Nat) (XK : Array LByte) (msg ad nonce key : Bytes)
+    (hO : st.mem[bo]? = some ⟨XO, baseo⟩) (hltO : baseo + XO.size < ptrBase) (hroom : oo + msg.length + 8 ≤ XO.size)
+    (hQ : st.mem[bq]? = some ⟨XQ, baseq⟩) (hltQ : baseq + XQ.size < ptrBase) (hroomQ : qo + msg.length ≤ XQ.size)
+    (hL : st.mem[bl]? = some ⟨XL, basel⟩) (hltL : basel + XL.size < ptrBase) (hinL : ol + 8 ≤ XL.size) (halL : (basel + ol) % 8 = 0)
+    (bM : Buf st.mem bm basem moff XM msg) (bA : Buf st.mem ba basea aoff XA ad) (bN : Buf st.mem bn basen noff XN nonce) (bK : Buf st.mem bk basek koff XK key)
+    (hnl : nonce.length = 12) (hkl : key.length = 4 * v.nk)
+    (hsep : bl ≠ bo ∧ bl ≠ bm ∧ bl ≠ ba ∧ bl ≠ bn ∧ bl ≠ bk ∧ bl ≠ bq) (hmo : bm ≠ bo) (hqo : bq ≠ bo) (hqn : bq ≠ bn) (hqa : bq ≠ ba) (hao : ba ≠ bo) (hno : bn ≠ bo) (hko : bk ≠ bo)
+    (hsz : st.mem.size + 2 < 2 ^ 30) :
+    ∃ fuel1 st1 fuel2 st2 blkQ l, callFun prog fuel1 (sivEncIdx v) false
+        [(mkPtr bo (baseo + oo), .pub), (mkPtr bl (basel + ol), .pub), (mkPtr bm (basem + moff), .pub), (msg.length, .pub),
+         (mkPtr ba (basea + aoff), .pub), (ad.length, .pub), (mkPtr bn (basen + noff), .pub), (mkPtr bk (basek + koff), .pub)] st =
+        .ok .normal #[(0, .pub), (mkPtr bo (baseo + oo), .pub), (mkPtr bl (basel + ol), .pub), (mkPtr bm (basem + moff), .pub), (msg.length, .pub),
+         (mkPtr ba (basea + aoff), .pub), (ad.length, .pub), (mkPtr bn (basen + noff), .pub), (mkPtr bk (basek + koff), .pub)] st1 ∧
+      callFun prog fuel2 (sivDecIdx v) true
+        [(mkPtr bq (baseq + qo), .pub), (mkPtr bl (basel + ol), .pub), (mkPtr bo (baseo + oo), .pub), (msg.length + 8, .pub),
+         (mkPtr ba (basea + aoff), .pub), (ad.length, .pub), (mkPtr bn (basen + noff), .pub), (mkPtr bk (basek + koff), .pub)] st1 =
+        .ok .normal #[(0, l), (mkPtr bq (baseq + qo), .pub), (mkPtr bl (basel + ol), .pub), (mkPtr bo (baseo + oo), .pub), (msg.length + 8, .pub),
+         (mkPtr ba (basea + aoff), .pub), (ad.length, .pub), (mkPtr bn (basen + noff), .pub), (mkPtr bk (basek + koff), .pub)] st2 ∧
+      st2.mem[bq]? = some blkQ ∧ blkQ.base = baseq ∧ BytesV blkQ.bytes qo msg := by
+  obtain ⟨f1, st1, blkO, hr1, hent1, hms1, hO1, hO1b, hO1s, hO1d, hlen, _, hL1, hoth1⟩ := siv_encrypt_source_is_spec v st bo baseo oo XO bl basel ol XL bm basem moff XM ba basea aoff XA
+    bn basen noff XN bk basek koff XK msg ad nonce key hO hltO hroom hL hltL hinL halL bM bA bN bK hnl hkl ⟨hsep.1, hsep.2.1, hsep.2.2.1, hsep.2.2.2.1, hsep.2.2.2.2.1⟩ hno.symm (Or.inl hmo)
+    hsz
+  -- the ciphertext as body ++ tag
+  have hspec : Spec.SIV.encrypt v.params key nonce ad msg = sivEncrypt v key nonce ad msg := (TJ.Props.C09.siv_is_spec v key nonce ad msg hnl).symm
+  rw [hspec] at hO1d hlen
+  generalize hct : sivEncrypt v key nonce ad msg = ct at hO1d hlen
+  have hsplit : ct = ct.take msg.length ++ ct.drop msg.length := (List.take_append_drop _ _).symm
+  have hbl : (ct.take msg.length).length = msg.length := by rw [List.length_take]; omega
+  have htl : (ct.drop msg.length).length = 8 := by rw [List.length_drop]; omega
+  -- the buffers in the state after encryption
+  have hO1' : st1.mem[bo]? = some ⟨blkO.bytes, baseo⟩ := by rw [hO1, ← hO1b]
+  obtain ⟨XQ1, hQ1, hQ1s, _⟩ := le_block_dataA (off := 0) (data := []) (by have := hoth1 bq hqo hsep.2.2.2.2.2.symm; rw [hQ] at this; exact this) ⟨by simp, fun k b hk => by simp at hk⟩
+  obtain ⟨XL1, hL1', hL1s, _⟩ := le_block_dataA (off := 0) (data := []) hL1 ⟨by simp, fun k b hk => by simp at hk⟩
+  obtain ⟨XA1, bA1⟩ := buf_le bA (hoth1 ba hao hsep.2.2.1.symm)
+  obtain ⟨XN1, bN1⟩ := buf_le bN (hoth1 bn hno hsep.2.2.2.1.symm)
+  obtain ⟨XK1, bK1⟩ := buf_le bK (hoth1 bk hko hsep.2.2.2.2.1.symm)
+  have bC : Buf st1.mem bo baseo oo blkO.bytes (ct.take msg.length ++ ct.drop msg.length) := ⟨hO1', by rw [hO1s]; exact hltO, by rw [← hsplit]; exact hO1d⟩
+  obtain ⟨f2, st2, blkQ, l, buf, hr2, hl, _, _, hmlen, hbuf, hQ2, hQ2b, _, hQ2d, _⟩ := siv_decrypt_source_is_model v st1 bq baseq qo XQ1 bl basel ol XL1 bo baseo oo blkO.bytes ba basea aoff XA1
+    bn basen noff XN1 bk basek koff XK1 (ct.take msg.length) (ct.drop msg.length) ad nonce key hQ1 (by rw [hQ1s]; exact hltQ) (by rw [hbl, hQ1s]; exact hroomQ)
+    hL1' (by rw [hL1s, TJ.MiniC.PermC.size_writeLE]; exact hltL) (by rw [hL1s, TJ.MiniC.PermC.size_writeLE]; exact hinL) halL bC bA1 bN1 bK1 htl hnl hkl
+    ⟨hsep.2.2.2.2.2, hsep.1, hsep.2.2.1, hsep.2.2.2.1, hsep.2.2.2.2.1⟩ hqn hqa (Or.inl hqo.symm) (by rw [hms1]; exact hsz)
+  rw [hbl] at hr2
+  rw [← hsplit, ← hct, TJ.Props.C08.roundtrip_lib v key nonce ad msg] at hr2 hbuf
+  have hb : buf = msg := (Option.some.inj hbuf).symm
+  rw [hb] at hQ2d
+  rw [if_pos rfl] at hr2
+  exact ⟨f1, st1, f2, st2, blkQ, l, hr1, hr2, hQ2, hQ2b, hQ2d⟩
+
 end TJ.Props.C08Gen
